@@ -36,7 +36,7 @@ type Case struct {
 }
 
 func gen(t *rapid.T) Case {
-	c := Case{H: lib.GenHistory(t, lib.RepoGenOpts{SubOuts: true, Tools: true}, 2, 6)}
+	c := Case{H: lib.GenHistory(t, lib.RepoGenOpts{SubOuts: true, Tools: true, OptOuts: true}, 2, 6)}
 	for range c.H.States {
 		c.CleanAt = append(c.CleanAt, rapid.IntRange(0, 2).Draw(t, "clean") == 0)
 	}
@@ -144,5 +144,5 @@ func run(c Case, o *lib.Obs) error {
 }
 
 func TestC01(t *testing.T) {
-	lib.Check(t, spec, lib.Scale(16, 480), gen, run)
+	lib.Check(t, spec, lib.Scale(24, 480), gen, run)
 }
